@@ -20,7 +20,7 @@ CONFIG = {
 }
 
 MANIFEST = {
-    "text": "Theorems over a Gallina model of base62String/parseBase62/Pattern/NewHash, for all 2^128 identifiers and all strings: render is total and yields 22 characters matching the pattern string read from the Go source; parse(render b) = b, hence injectivity; parse never panics, returns exactly the denoted magnitude, and rejects magnitudes >= 2^128; NewHash depends only on the concatenation of its arguments. The model is tied to the code by re-reading PatternString on every run and by evaluating model and implementation on the same identifiers/strings.",
+    "text": "Theorems over a Gallina model of base62String/parseBase62/Pattern/NewHash, for all 2^128 identifiers and all strings: render is total and yields 22 characters matching the pattern string read from the Go source; parse(render b) = b, hence injectivity; parse never panics, returns exactly the denoted magnitude, and rejects magnitudes >= 2^128; NewHash depends only on the concatenation of its arguments. The model is tied to the code by re-reading PatternString on every run and by evaluating model and implementation on the same identifiers/strings, on histories of NewHash calls over tuples that collide under naive joining (so a memo keyed by a non-injective join shows up as history dependence), and on the validation patterns the real compiler emits for key:id62 fields in every qualifier form (plain, required, optional, array, map, list rules), each of which must equal the regenerated pattern string.",
     "note": "Trusted: Coq kernel; the translator; the correspondence harness; math/big, fmt padding, regexp and crypto/sha1 are modelled, not verified. All C20 theorems are closed under the global context (no axioms).",
     "technique": "Rocq/Coq proof (radix round-trip by induction) + regenerated pattern table + in-Coq differential correspondence",
 }
